@@ -32,7 +32,7 @@ class Cls:
             s += " : " + ", ".join(x.name for x in self.supers)
         s += " {\n"
         for kind, tp, nm, init in self.fields:
-            s += "    %s %s%s;\n" % (tp, nm, "" if init is None else " = " + riddle.fmt_num(init, "real"))
+            s += "    %s %s%s;\n" % (tp, nm, "" if init is None else " = " + (("true" if init else "false") if kind == "bool" else riddle.fmt_num(init, "real")))
         if self.params or self.super_args:
             s += "    %s(%s)" % (self.name, ", ".join("%s %s" % (tp, nm) for kind, tp, nm in self.params))
             il = []
@@ -64,6 +64,8 @@ def gen_obj(rnd, idx):
         fields = []
         for j in range(rnd.randint(0, 2)):
             fields.append(("real", "real", "w%d_%d" % (i, j), Fraction(rnd.randint(0, 20), 2) if rnd.random() < 0.35 else None))
+        if rnd.random() < 0.35:
+            fields.append(("bool", "bool", "q%d" % i, rnd.random() < 0.5))       # a boolean field with an initialiser
         if classes and rnd.random() < 0.3:
             tgt = rnd.choice(classes)
             if tgt not in supers:
@@ -263,6 +265,14 @@ def gen_obj(rnd, idx):
         elif c < 0.6 and len(envars) >= 2:
             a, b = rnd.sample(envars, 2)
             cons.append((rnd.choice(["eq", "neq"]), ("id", [a]), ("id", [b])))
+        elif c < 0.75 and objvars and rnd.random() < 0.5:
+            # a boolean field reached through a variable
+            a = rnd.choice(objvars)
+            cl = [c for c in classes if c.name == variables[a]["type"]][0]
+            bf = [nm for an in cl.ancestors() for kind, tp, nm, init in an.fields if kind == "bool"]
+            if not bf:
+                continue
+            cons.append(("eq", ("id", [a, rnd.choice(bf)]), ("bool", rnd.random() < 0.5)))
         elif objvars:
             # a numeric field reached through a variable
             a = rnd.choice(objvars)
